@@ -106,6 +106,14 @@ class SMapV(SV):
     def __repr__(self): return 'SMap(%r,%r)' % (self.dom, self.arr)
 
 
+class SymRange(SV):
+    """range(lo, hi) with symbolic bounds (only usable in comprehensions)"""
+    __slots__ = ('lo', 'hi')
+
+    def __init__(self, lo, hi):
+        self.lo, self.hi = lo, hi
+
+
 class Obj:
     """Heap object with identity."""
     __slots__ = ('oid', 'cls', 'schema')
